@@ -427,6 +427,12 @@ def handle (req : Json) : Except String Json := do
   | "cfg" => handleCfg req
   | "gitfiles" => handleGitFiles req
   | "web" => handleWeb req
+  | "shouldignore" => do
+      let p ← req.getObjValAs? String "path"
+      match req.getObjVal? "include" with
+      | .ok (.arr #[.bool a, .bool b, .bool c, .bool d, .bool e, .bool f]) =>
+          pure (Json.mkObj [("ok", .bool (Nbdime.Pretty.shouldIgnore ⟨a, b, c, d, e, f⟩ p))])
+      | _ => throw "shouldignore.include"
   | "tssplit" => do
       let t ← req.getObjValAs? String "text"
       pure (Json.mkObj [("ok", .arr ((Nbdime.Ts.splitLines t.toList).map (fun l => Json.str (String.ofList l))).toArray)])
